@@ -56,6 +56,7 @@ func (s *State) clone() *State {
 }
 
 type VC struct {
+	gotoT map[string]bool // labels that are goto targets (lazily computed)
 	quiet bool // suppress obligations while evaluating an expression for its value only
 	prog    *Program
 	fi      *FuncInfo
